@@ -552,22 +552,26 @@ func lookupArshaler(t reflect.Type) *arshaler {
 	return v.(*arshaler)
 }
 
-// arrayHasNext reports whether another element follows in the JSON array
-// currently being decoded. If the next token cannot even be peeked at
-// (e.g., due to an I/O error), then it reports that pending error right away.
-// Otherwise, the logic for the element may call PeekKind again,
-// which re-evaluates the input, and a transient I/O error would be forgotten
-// such that a following ']' is mistaken for the element.
-func arrayHasNext(dec *jsontext.Decoder) (bool, error) {
-	switch dec.PeekKind() {
-	case ']':
-		return false, nil
-	case jsontext.KindInvalid:
+// peekKind is like [jsontext.Decoder.PeekKind], except that if the next token
+// cannot even be peeked at (e.g., due to an I/O error), then it reports
+// that pending error right away. Otherwise, logic further down may call
+// PeekKind again, which re-evaluates the input, and a transient I/O error
+// would be forgotten after a decision was already based on the invalid kind.
+func peekKind(dec *jsontext.Decoder) (jsontext.Kind, error) {
+	k := dec.PeekKind()
+	if k == jsontext.KindInvalid {
 		if _, err := dec.ReadToken(); err != nil {
-			return false, err
+			return k, err
 		}
 	}
-	return true, nil
+	return k, nil
+}
+
+// arrayHasNext reports whether another element follows in the JSON array
+// currently being decoded, or the error that prevents finding that out.
+func arrayHasNext(dec *jsontext.Decoder) (bool, error) {
+	k, err := peekKind(dec)
+	return k != ']', err
 }
 
 var stringsPools = &sync.Pool{New: func() any { return new(stringSlice) }}
